@@ -33,7 +33,15 @@ func World(prop string, r *rng.R, n int) Result {
 			"sharing the same store (recorded external calls, injected faults); profile " + p.name + "; a case is non-trivial when at least one orbiter packet " +
 			"reaches the dispatch stage or a message changes state; distinct by the rendered operation list",
 		Notes: map[string]any{}}
-	wr, err := newWorldRunner()
+	var extra []world.ExtraAction
+	if prop == "C06" {
+		extra = append(extra, newSwap)
+		res.Evaluator, res.InputType = "run_world_swap", "((list nat * string) * world_case)"
+	}
+	wr, err := newWorldRunner(extra...)
+	if err == nil && prop == "C06" {
+		wr.w.InstOnly = true
+	}
 	if err != nil {
 		res.Failures = append(res.Failures, Failure{What: "cannot boot the application: " + err.Error(), Sig: "boot", Case: map[string]any{}})
 		return res
@@ -191,6 +199,9 @@ func (wr *worldRunner) runCase(prop string, p profile, r *rng.R, stats map[strin
 		fails = append(fails, orc.check(pl.op, pl.info, obs)...)
 	}
 	input := "(" + maskCoq(p.mask) + ", " + wr.coqHeader(before, strsB, strsI, opTerms, before.State) + ")"
+	if wr.w.InstOnly {
+		input = "((" + maskCoq(p.mask) + ", " + cq.Str(world.Hex(PoolAddr())) + "), " + wr.coqHeader(before, strsB, strsI, opTerms, before.State) + ")"
+	}
 	desc := map[string]any{"ops": descOps}
 	for i := range fails {
 		if fails[i].Case == nil {
@@ -319,6 +330,7 @@ var sigProp = map[string]string{
 	"passthrough-over-limit-accepted": "C18", "passthrough-within-limit-refused": "C18", "limit-not-in-force": "C18", "passthrough-checked-late": "C18",
 	"prior-balance-changes-outcome": "C11", "prior-balance-not-swept": "C11", "prior-balance-other-denom-moved": "C11",
 	"decoder-roundtrip": "C15",
+	"repeated-action-accepted": "C06", "ordered-payload-refused": "C06", "action-order": "C06", "final-coin": "C06",
 }
 
 func (o *oracle) fail(sig, what string, desc string) Failure {
@@ -385,6 +397,7 @@ func (o *oracle) check(op world.Op, info pktInfo, obs world.OpObs) []Failure {
 		}
 		fs = append(fs, o.checkMoves(op, info, obs, desc)...)
 		fs = append(fs, o.checkGates(op, info, obs, desc)...)
+		fs = append(fs, o.checkOrder(op, info, obs, desc)...)
 		fs = append(fs, o.checkPrior(op, info, obs, desc)...)
 	case "msg":
 		if obs.MsgPan != "" {
@@ -436,7 +449,7 @@ func denotesAuthority(s string) bool {
 // recomputed from the packet and the payload the harness built.
 func (o *oracle) checkMoves(op world.Op, info pktInfo, obs world.OpObs, desc string) []Failure {
 	var fs []Failure
-	if !obs.Recv.Success || !world.IsOrbiterFlow(op.Pkt) || info.spec == nil || op.Lie != 0 {
+	if !obs.Recv.Success || !world.IsOrbiterFlow(op.Pkt) || info.spec == nil || op.Lie != 0 || info.spec.swap {
 		return nil
 	}
 	nd := len(o.wr.w.Denoms)
@@ -725,12 +738,24 @@ func (o *oracle) checkState(op world.Op, info pktInfo, obs world.OpObs, desc str
 			}
 		}
 		if out != nil && op.Lie == 0 {
-			k := "1|" + op.Pkt.DstChan + "|" + proto + ":" + cp + "|" + info.denom
-			cur := o.amounts[k]
-			if cur[0] == nil {
-				cur = [2]*big.Int{new(big.Int), new(big.Int)}
+			add := func(denom string, in, ou *big.Int) {
+				k := "1|" + op.Pkt.DstChan + "|" + proto + ":" + cp + "|" + denom
+				cur := o.amounts[k]
+				if cur[0] == nil {
+					cur = [2]*big.Int{new(big.Int), new(big.Int)}
+				}
+				o.amounts[k] = [2]*big.Int{new(big.Int).Add(cur[0], in), new(big.Int).Add(cur[1], ou)}
 			}
-			o.amounts[k] = [2]*big.Int{new(big.Int).Add(cur[0], info.amount), new(big.Int).Add(cur[1], out)}
+			finalDenom := info.denom
+			if info.spec != nil && info.spec.swap && !info.spec.swapTwice {
+				finalDenom, _ = otherDenom(info.denom)
+			}
+			if finalDenom == info.denom {
+				add(info.denom, info.amount, out)
+			} else { // a denomination-changing action: two entries
+				add(info.denom, info.amount, new(big.Int))
+				add(finalDenom, new(big.Int), out)
+			}
 			o.counts["1|"+op.Pkt.DstChan+"|"+proto+"|"+cp]++
 		} else if out != nil {
 			o.statsUnknown = true
@@ -951,4 +976,139 @@ func (o *oracle) checkPrior(op world.Op, info pktInfo, obs world.OpObs, desc str
 		}
 	}
 	return fs
+}
+
+
+// checkOrder: C06 — the actions ran in payload order, each on the coin its predecessor left, and the
+// route got the coin the last action left.  Expected values are recomputed from the payload alone.
+func (o *oracle) checkOrder(op world.Op, info pktInfo, obs world.OpObs, desc string) []Failure {
+	var fs []Failure
+	if !world.IsOrbiterFlow(op.Pkt) || info.spec == nil || info.spec.rawMem != nil || len(op.Plan) > 0 || op.Lie != 0 || info.denom == "" {
+		return nil
+	}
+	sp := info.spec
+	if !sp.swap && len(sp.fees) == 0 {
+		return nil
+	}
+	// the sequence of actions as listed
+	type act struct {
+		swap bool
+		fees []feeEntry
+	}
+	var seq []act
+	if sp.swap && sp.swapFirst {
+		seq = append(seq, act{swap: true})
+	}
+	for _, fl := range sp.fees {
+		seq = append(seq, act{fees: fl})
+	}
+	if sp.swap && !sp.swapFirst {
+		seq = append(seq, act{swap: true})
+	}
+	if sp.swap && sp.swapTwice {
+		seq = append(seq, act{swap: true})
+	}
+	repeated := len(sp.fees) > 1 || (sp.swap && sp.swapTwice)
+	if repeated {
+		if obs.Recv.Success {
+			fs = append(fs, o.fail("repeated-action-accepted", "a payload repeating an action identifier was executed", desc))
+		}
+		return fs
+	}
+	if len(sp.extra) > 0 {
+		return nil
+	}
+	if !obs.Recv.Success {
+		// every action valid on the coin it is given, route fine for the coin the last one leaves: must succeed
+		if !info.swapRouteOK || o.pausedAct["ACTION_FEE"] || o.pausedAct["ACTION_SWAP"] || uint64(len(sp.fwd.pass)) > uint64(o.limit) {
+			return nil
+		}
+		proto, cp := destOf(sp.fwd)
+		if o.pausedProto[proto] || o.pausedCC[proto+"|"+cp] {
+			return nil
+		}
+		// only the transferred denomination is swept: coins of the swap's target denomination already
+		// on the orbiter account trip the forwarder's exact-balance check (DESIGN §7 C11, noted limitation)
+		if sp.swap {
+			fd, _ := otherDenom(info.denom)
+			for di, dn := range o.wr.w.Denoms {
+				if dn == fd && o.bal(obs.Before, 0, di).Sign() != 0 {
+					return nil
+				}
+			}
+		}
+		cur := new(big.Int).Set(info.amount)
+		for _, a := range seq {
+			if a.swap {
+				cur.Add(cur, big.NewInt(1))
+				cur.Div(cur, big.NewInt(2))
+				continue
+			}
+			exp := feeExpect(cur, a.fees)
+			if exp.refused {
+				return nil
+			}
+			cur = exp.fwd
+		}
+		if cur.Sign() > 0 {
+			fs = append(fs, o.fail("ordered-payload-refused", "a payload whose actions are all valid on the coin they are given, with a route that takes the last coin, was refused", desc))
+		}
+		return fs
+	}
+	// expected sends, in order, and the final coin
+	var want []string
+	denom, amt := info.denom, new(big.Int).Set(info.amount)
+	orb, pool := world.Hex(sim.OrbiterAddr()), world.Hex(PoolAddr())
+	for _, a := range seq {
+		if a.swap {
+			d2, _ := otherDenom(denom)
+			out := new(big.Int).Add(amt, big.NewInt(1))
+			out.Div(out, big.NewInt(2))
+			want = append(want, fmt.Sprintf("%s>%s %s%s", orb, pool, amt, denom), fmt.Sprintf("%s>%s %s%s", pool, orb, out, d2))
+			denom, amt = d2, out
+			continue
+		}
+		exp := feeExpect(amt, a.fees)
+		if exp.refused {
+			fs = append(fs, o.fail("action-order", "a fee list that must be refused on the running amount was executed", desc))
+			return fs
+		}
+		for _, c := range exp.credits {
+			want = append(want, fmt.Sprintf("%s>%s %s%s", orb, c[0], c[1], denom))
+		}
+		amt = exp.fwd
+	}
+	var got []string
+	var bridgeAmt *big.Int
+	bridgeDenom := ""
+	for _, c := range obs.Trace {
+		switch c.Kind {
+		case "feesend":
+			coin := c.Args[2].Items()[0].Items()
+			got = append(got, fmt.Sprintf("%s>%s %s%s", c.Args[0].Str(), c.Args[1].Str(), coin[1].Big(), coin[0].Str()))
+		case "cctp":
+			bridgeAmt, bridgeDenom = c.Args[1].Big(), c.Args[4].Str()
+		case "hyptransfer":
+			bridgeAmt, bridgeDenom = c.Args[4].Big(), denomOfToken(o.wr, c.Args[1].Str())
+		case "banksend":
+			coin := c.Args[2].Items()[0].Items()
+			bridgeAmt, bridgeDenom = coin[1].Big(), coin[0].Str()
+		}
+	}
+	if strings.Join(got, " | ") != strings.Join(want, " | ") {
+		fs = append(fs, o.fail("action-order", fmt.Sprintf("the actions moved [%s]; in payload order on the running coin they must move [%s]", strings.Join(got, " | "), strings.Join(want, " | ")), desc))
+	}
+	if bridgeAmt == nil || bridgeAmt.Cmp(amt) != 0 || bridgeDenom != denom {
+		fs = append(fs, o.fail("final-coin", fmt.Sprintf("the route was given %v %s, the last action left %s %s", bridgeAmt, bridgeDenom, amt, denom), desc))
+	}
+	return fs
+}
+
+func denomOfToken(wr *worldRunner, raw string) string {
+	for d, t := range wr.w.S.HypTokens {
+		if t == raw {
+			return d
+		}
+	}
+	return "?"
 }
